@@ -282,7 +282,6 @@ Ltac mo_solve :=
   | |- avr (or_none Sr _) = true => apply avr_or_none_s
   | |- avr (or_none id_ _) = true => apply avr_or_none_i
   | |- avr (rname _ _ _) = true => apply avr_rname
-  | |- avr (PList (map (PStr ViaRawQuote) _)) = true => fail
   | |- _ => first [assumption | reflexivity]
   end.
 Ltac kw_solve := rewrite avr_kwlist'; cbn [forallb fst snd]; repeat (apply andb_true_iff; split); try mo_solve.
@@ -323,12 +322,12 @@ Proof.
   cbn [forallb]. rewrite (avr_constraint _ _ _ E). exact IH.
 Qed.
 
-Lemma avr_create_table c t : forallb col_ty_ok (t_cols t) = true -> t_prefixes t = [] -> avr (render_create_table c t) = true.
+Lemma avr_create_table c t : forallb col_ty_ok (t_cols t) = true -> avr (render_create_table c t) = true.
 Proof.
-  intros H P. unfold render_create_table. rewrite avr_call, forallb_app. cbn [forallb]. rewrite forallb_app, avr_somes, avr_id.
+  intros H. unfold render_create_table. rewrite avr_call, forallb_app. cbn [forallb]. rewrite forallb_app, avr_somes, avr_id.
   assert (A: forallb avr (map (render_column c) (t_cols t)) = true).
   { rewrite forallb_map. rewrite forallb_forall in *. intros x Hx. apply avr_column. apply H; assumption. }
-  rewrite A, P. kw_solve.
+  rewrite A. kw_solve. destruct (t_prefixes t) as [|p ps]; [reflexivity|]. unfold mo. rewrite avr_list. apply avr_map_Sr.
 Qed.
 
 Lemma avr_map_ix c l : forallb avr (map (render_ixexpr c) l) = true.
@@ -356,15 +355,15 @@ Proof.
   - kw_solve.
 Qed.
 
-(* the table lemma: with no table prefixes, every expression of a rendered script has all its leaves via repr *)
-Theorem render_all_via_repr c ops : forallb top_ty_ok ops = true -> forallb no_prefixes ops = true ->
+(* the table lemma: every expression of a rendered script has all its leaves via repr *)
+Theorem render_all_via_repr c ops : forallb top_ty_ok ops = true ->
   forallb (fun st => forallb avr (stmt_exprs st)) (render_ops c ops) = true.
 Proof.
-  intros T P. unfold render_ops. induction ops as [|o r IH]; [reflexivity|].
-  cbn [forallb] in T, P. apply andb_true_iff in T, P. destruct T as [To Tr], P as [Po Pr].
-  cbn [flat_map]. rewrite forallb_app, (IH Tr Pr), andb_true_r.
-  destruct o as [t|n s ie ty|tn s o|tn s l]; cbn [render_top top_ty_ok no_prefixes] in *.
-  - cbn [forallb stmt_exprs]. rewrite avr_create_table; auto. destruct (t_prefixes t); [reflexivity|discriminate].
+  intros T. unfold render_ops. induction ops as [|o r IH]; [reflexivity|].
+  cbn [forallb] in T. apply andb_true_iff in T. destruct T as [To Tr].
+  cbn [flat_map]. rewrite forallb_app, (IH Tr), andb_true_r.
+  destruct o as [t|n s ie ty|tn s o|tn s l]; cbn [render_top top_ty_ok] in *.
+  - cbn [forallb stmt_exprs]. rewrite avr_create_table; auto.
   - cbn [forallb stmt_exprs]. unfold render_drop_table. rewrite avr_call, forallb_app. cbn [forallb]. rewrite avr_id. cbn [andb].
     rewrite andb_true_r. kw_solve.
   - cbn [forallb stmt_exprs]. rewrite avr_tbl_op; auto.
@@ -643,8 +642,6 @@ Lemma no_kw_cons c l : no_kw (somes (map (render_constraint c) l)) = true.
 Proof. induction l as [|k r IH]; [reflexivity|]. cbn [map somes]. destruct (render_constraint c k) eqn:E; [|exact IH].
   cbn [somes no_kw forallb]. destruct (is_column_call_constraint _ _ _ E) as [_ ->]. exact IH. Qed.
 
-Lemma rt_prefixes l : mapM as_str (map (PStr ViaRawQuote) l) = Some l.
-Proof. induction l as [|i r IH]; [reflexivity|]. cbn [map mapM as_str obind]. rewrite IH. reflexivity. Qed.
 
 Lemma rt_create_table c t : can_table c t = true -> eval_create_table c (match render_create_table c t with PCall _ a => a | _ => [] end) = Some t.
 Proof.
@@ -660,7 +657,7 @@ Proof.
   rewrite rt_columns, rt_constraints by assumption. cbn [obind].
   rewrite !kwarg_args by assumption. cbn [assoc String.eqb Ascii.eqb Bool.eqb andb]. rewrite !opt_id.
   rewrite rt_opt_i_truthy, rt_opt_s_truthy by assumption. cbn [obind]. rewrite rt_opt_b.
-  destruct prefixes as [|p ps]; [reflexivity|]. cbn [as_list]. rewrite rt_prefixes. reflexivity.
+  destruct prefixes as [|p ps]; [reflexivity|]. cbn [as_list]. rewrite rt_strs. reflexivity.
 Qed.
 
 Lemma rt_ixexprs c l : forallb can_ixexpr l = true -> mapM (as_ixexpr c) (map (render_ixexpr c) l) = Some l.
@@ -839,7 +836,7 @@ Qed.
 
 Theorem eval_render c ops : canonical (c, ops) = true -> eval_stmts c (render_ops c ops) = Some (expected c ops).
 Proof.
-  unfold canonical. cbn [fst snd]. intros H. apply andb_true_iff in H. destruct H as [Hc H].
+  unfold canonical. cbn [fst snd]. intros H.
   unfold eval_stmts, render_ops, expected. induction ops as [|o r IH]; [reflexivity|].
   cbn [forallb flat_map] in *. apply andb_true_iff in H. destruct H as [Ho Hr].
   apply mapM_app; [|apply IH; exact Hr]. clear IH Hr.
@@ -854,8 +851,8 @@ Proof.
   - rewrite !andb_true_iff in Ho. destruct Ho as [[[A1 A2] A3] A4].
     destruct l as [|m l]; [reflexivity|]. remember (m :: l) as ms.
     destruct (cfg_batch c) eqn:B.
-    + cbn [negb orb] in A4, Hc. unfold can_cfg in Hc. rewrite B in Hc. cbn [negb orb] in Hc.
-      cbn [mapM eval_stmt]. lit_cmp. rewrite Hc. cbn [andb negb app].
+    + cbn [negb orb] in A4.
+      cbn [mapM eval_stmt]. lit_cmp. rewrite str_eqb_refl. cbn [andb negb app].
       pos_eval. cbn [obind]. rewrite (rt_id _ A1). cbn [obind]. kw_eval. rewrite rt_or_none_i by assumption. cbn [obind].
       rewrite eval_members_batch by assumption. reflexivity.
     + apply eval_members_plain. assumption.
@@ -932,7 +929,7 @@ Proof. unfold check_C08, C08_holds. destruct (o_parsed o) as [st|]; [|discrimina
 
 Theorem model_holds i : inclass_C08 i = true -> C08_holds i (model_C08 i).
 Proof.
-  destruct i as [c ops]. unfold inclass_C08. intros H. apply andb_true_iff in H. destruct H as [H _]. apply andb_true_iff in H. destruct H as [H _].
+  destruct i as [c ops]. unfold inclass_C08. intros H. apply andb_true_iff in H. destruct H as [H _].
   unfold C08_holds, model_C08. cbn [o_parsed o_sql_same]. split; [eexists; reflexivity|].
   rewrite (eval_render c ops H). apply ops_eqb_refl.
 Qed.
@@ -1017,3 +1014,336 @@ Section TokensW.
     cbn [bstate pend rev app] in H. exact H.
   Qed.
 End TokensW.
+
+(* ================================================================ part 6: rendered expressions are well-formed *)
+Notation wfe := wf_expr.
+Lemma wfe_commas l : forallb wf_tok (commas l) = forallb (forallb wf_tok) l.
+Proof.
+  induction l as [|x r IH]; [reflexivity|]. cbn [commas forallb]. rewrite forallb_app. f_equal.
+  destruct r; [reflexivity|]. cbn [forallb] in *. exact IH.
+Qed.
+Lemma wfe_dotted p : forallb wf_tok (dotted p) = forallb valid_ident p.
+Proof. induction p as [|x r IH]; [reflexivity|]. cbn [dotted forallb wf_tok]. f_equal. destruct r; [reflexivity|]. exact IH. Qed.
+Lemma wfe_call p args : wfe (PCall p args) = forallb valid_ident p && forallb wfe args.
+Proof.
+  unfold wf_expr. cbn [toks]. rewrite forallb_app, wfe_dotted. f_equal. cbn [forallb wf_tok].
+  rewrite forallb_app, wfe_commas. cbn [forallb wf_tok]. rewrite forallb_map.
+  replace (is_punct 40) with true by reflexivity. replace (is_punct 41) with true by reflexivity. cbn [andb]. rewrite andb_true_r. reflexivity.
+Qed.
+Lemma wfe_list l : wfe (PList l) = forallb wfe l.
+Proof.
+  unfold wf_expr. cbn [toks forallb wf_tok]. rewrite forallb_app, wfe_commas. cbn [forallb wf_tok]. rewrite forallb_map.
+  replace (is_punct 91) with true by reflexivity. replace (is_punct 93) with true by reflexivity. cbn [andb]. rewrite andb_true_r. reflexivity.
+Qed.
+Lemma wfe_kw k v : wfe (PKw k v) = valid_ident k && wfe v.
+Proof. unfold wf_expr. cbn [toks forallb wf_tok]. replace (is_punct 61) with true by reflexivity. reflexivity. Qed.
+Lemma wfe_Sr s : wfe (Sr s) = valid_strb s.
+Proof. unfold wf_expr. cbn. apply andb_true_r. Qed.
+Lemma wfe_id i : wfe (id_ i) = wf_id i.
+Proof. apply wfe_Sr. Qed.
+Lemma wfe_bool b : wfe (PBool b) = true. Proof. destruct b; reflexivity. Qed.
+
+Definition mw (x:option pyexpr) : bool := match x with Some e => wfe e | None => true end.
+Lemma wfe_kwlist l : forallb (fun kv => valid_ident (lit (fst kv))) l = true ->
+  forallb wfe (kwlist l) = forallb (fun kv => mw (snd kv)) l.
+Proof.
+  induction l as [|[k x] r IH]; [reflexivity|]. cbn [forallb fst snd]. intros H. apply andb_true_iff in H. destruct H as [Hk Hr].
+  unfold kwlist in *. cbn [flat_map fst snd]. rewrite forallb_app, (IH Hr). f_equal.
+  unfold okw. destruct x; cbn [forallb mw]; [rewrite wfe_kw, Hk, andb_true_r|]; reflexivity.
+Qed.
+
+Lemma mw_opt_b x : mw (opt_b x) = true. Proof. destruct x as [[|]|]; reflexivity. Qed.
+Lemma mw_opt_s x : wf_ostr x = true -> mw (opt_s x) = true. Proof. destruct x; cbn [opt_s option_map mw wf_ostr]; [rewrite wfe_Sr|]; auto. Qed.
+Lemma mw_opt_i x : wf_oid x = true -> mw (opt_i x) = true. Proof. destruct x; cbn [opt_i option_map mw wf_oid]; [rewrite wfe_id|]; auto. Qed.
+Lemma mw_only_true x : mw (only_true x) = true. Proof. destruct x as [[|]|]; reflexivity. Qed.
+Lemma mw_when b e : wfe e = true -> mw (when b e) = true. Proof. intros H. destruct b; [exact H|reflexivity]. Qed.
+Lemma mw_if (b:bool) x : mw x = true -> mw (if b then None else x) = true. Proof. destruct b; auto. Qed.
+Lemma mw_tri {A} (f:A -> pyexpr) (g:A -> bool) t : (forall a, g a = true -> wfe (f a) = true) -> wf_tri g t = true -> mw (tri_v f t) = true.
+Proof. intros H. destruct t; cbn; auto. Qed.
+Lemma mw_map {A} (f:A -> pyexpr) (g:A -> bool) x : (forall a, g a = true -> wfe (f a) = true) -> match x with Some a => g a | None => true end = true -> mw (option_map f x) = true.
+Proof. intros H. destruct x; cbn; auto. Qed.
+Lemma truthy_s_wf x : wf_ostr x = true -> wf_ostr (truthy_s x) = true.
+Proof. destruct x as [[|]|]; auto. Qed.
+Lemma truthy_wf x : wf_oid x = true -> wf_oid (truthy x) = true.
+Proof. destruct x as [[[|] q]|]; auto. Qed.
+Lemma wfe_or_none_s x : wf_ostr x = true -> wfe (or_none Sr x) = true. Proof. destruct x; cbn [or_none wf_ostr]; [rewrite wfe_Sr|]; auto. Qed.
+Lemma wfe_or_none_i x : wf_oid x = true -> wfe (or_none id_ x) = true. Proof. destruct x; cbn [or_none wf_oid]; [rewrite wfe_id|]; auto. Qed.
+Lemma wfe_map_Sr l : forallb wfe (map Sr l) = forallb valid_strb l.
+Proof. induction l as [|a r IH]; [reflexivity|]. cbn [map forallb]. rewrite wfe_Sr, IH. reflexivity. Qed.
+Lemma wfe_map_id l : forallb wfe (map id_ l) = forallb wf_id l.
+Proof. induction l as [|a r IH]; [reflexivity|]. cbn [map forallb]. rewrite wfe_id, IH. reflexivity. Qed.
+
+Ltac lit_ok := repeat match goal with
+  | |- context [valid_ident (lit ?a)] => let r := eval vm_compute in (valid_ident (lit a)) in change (valid_ident (lit a)) with r
+  end.
+
+Section WF.
+  Variable c : cfg.
+  Hypothesis Hc : wf_cfg c = true.
+  Let Hop : valid_ident (cfg_op c) = true. Proof. unfold wf_cfg in Hc. apply andb_true_iff in Hc. tauto. Qed.
+  Let Hsa : valid_ident (cfg_sa c) = true. Proof. unfold wf_cfg in Hc. apply andb_true_iff in Hc. tauto. Qed.
+
+  Lemma wfe_rname hb n : wf_cname n = true -> wfe (rname c hb n) = true.
+  Proof.
+    destruct n as [|i|s]; cbn [rname wf_cname]; intros H; [reflexivity|rewrite wfe_id; exact H|].
+    rewrite wfe_call. cbn [forallb]. rewrite wfe_Sr, H. unfold aprefix. destruct hb; lit_ok; rewrite ?Hop; reflexivity.
+  Qed.
+  Lemma wfe_repr_type t : wf_ty t = true -> wfe (repr_type c t) = true.
+  Proof.
+    unfold wf_ty, repr_type. intros H. rewrite !andb_true_iff in H. destruct H as [[H1 H2] H3].
+    destruct (ty_mod t); rewrite wfe_call; cbn [forallb]; rewrite H1, H3, ?Hsa, ?H2; reflexivity.
+  Qed.
+  Lemma strip_quotes_in s x : In x (strip_quotes s) -> In x s.
+  Proof.
+    unfold strip_quotes.
+    set (r := match s with [] => s | c0 :: r0 => if c0 =? c_sq then r0 else s end).
+    assert (R: forall y, In y r -> In y s). { unfold r. destruct s as [|c0 r0]; auto. destruct (c0 =? c_sq); auto. intros y Hy. right. exact Hy. }
+    assert (V: forall y, In y (rev r) -> In y s). { intros y Hy. apply R. apply in_rev. exact Hy. }
+    destruct (rev r) as [|c1 t] eqn:E; [apply R|].
+    destruct (c1 =? c_sq). { intros H. apply V. right. rewrite <- in_rev in H. exact H. }
+    destruct (N.eqb_spec c1 10) as [->|]; [|apply R]. destruct t as [|c2 t2]; [apply R|]. destruct (c2 =? c_sq); [|apply R].
+    intros H. rewrite <- in_rev in H. apply V. destruct H as [<-|H]; [left; reflexivity|right; right; exact H].
+  Qed.
+  Lemma strip_quotes_valid s : valid_strb s = true -> valid_strb (strip_quotes s) = true.
+  Proof. unfold valid_strb. rewrite !forallb_forall. intros H x Hx. apply H. apply strip_quotes_in. exact Hx. Qed.
+  Lemma wfe_sd d : wf_sd d = true -> wfe (render_server_default c d) = true.
+  Proof.
+    destruct d as [s|s|s p]; cbn [wf_sd render_server_default]; intros H.
+    - rewrite wfe_Sr. apply strip_quotes_valid. exact H.
+    - rewrite wfe_call. cbn [forallb]. rewrite wfe_Sr, H, Hsa. reflexivity.
+    - rewrite wfe_call. cbn [forallb]. rewrite wfe_Sr, H, Hsa. lit_ok. cbn [andb]. rewrite wfe_kwlist by reflexivity. cbn [forallb fst snd].
+      rewrite mw_opt_b. reflexivity.
+  Qed.
+
+  Ltac mw_solve :=
+    lazymatch goal with
+    | |- mw (opt_b _) = true => apply mw_opt_b
+    | |- mw (opt_s (truthy_s _)) = true => apply mw_opt_s, truthy_s_wf; assumption
+    | |- mw (opt_s _) = true => apply mw_opt_s; assumption
+    | |- mw (opt_i (truthy _)) = true => apply mw_opt_i, truthy_wf; assumption
+    | |- mw (opt_i _) = true => apply mw_opt_i; assumption
+    | |- mw (only_true _) = true => apply mw_only_true
+    | |- mw None = true => reflexivity
+    | |- mw (if _ then None else _) = true => apply mw_if; mw_solve
+    | |- mw (when _ _) = true => apply mw_when; mw_solve
+    | |- mw (Some _) = true => unfold mw; mw_solve
+    | |- wfe (PBool _) = true => apply wfe_bool
+    | |- wfe (id_ _) = true => rewrite wfe_id; assumption
+    | |- wfe (or_none Sr _) = true => apply wfe_or_none_s; assumption
+    | |- wfe (or_none id_ _) = true => apply wfe_or_none_i; assumption
+    | |- wfe (rname _ _ _) = true => apply wfe_rname; assumption
+    | |- _ => first [assumption | reflexivity]
+    end.
+  Ltac kww := rewrite wfe_kwlist by reflexivity; cbn [forallb fst snd]; repeat (apply andb_true_iff; split); try mw_solve.
+
+  Lemma wfe_column x : wf_column x = true -> wfe (render_column c x) = true.
+  Proof.
+    unfold wf_column. intros H. rewrite !andb_true_iff in H. destruct H as [[[H1 H2] H3] H4].
+    unfold render_column. rewrite wfe_call. cbn [forallb]. lit_ok. rewrite Hsa. cbn [andb].
+    rewrite !forallb_app. cbn [forallb]. rewrite wfe_id, H1, (wfe_repr_type _ H2). cbn [andb].
+    apply andb_true_iff; split.
+    - unfold pos_default. destruct (c_default x) as [d|]; [destruct (positional_default d)|]; cbn [forallb]; rewrite ?wfe_sd; auto.
+    - kww. unfold kw_default. destruct (c_default x) as [d|]; [destruct (positional_default d)|]; cbn [mw]; rewrite ?wfe_sd; auto.
+  Qed.
+
+  Lemma mw_opt_name n : wf_cname n = true -> mw (opt_name c n) = true.
+  Proof. intros H. unfold opt_name. apply mw_when, wfe_rname. exact H. Qed.
+
+  Lemma wfe_constraint k e : wf_tcons k = true -> render_constraint c k = Some e -> wfe e = true.
+  Proof.
+    destruct k as [cols n|cols refs n ou od i d ua m|cols n d i|s n]; cbn [render_constraint wf_tcons]; intros H.
+    - destruct cols as [|c0 cols]; [discriminate|]. remember (c0 :: cols) as cc. apply andb_true_iff in H. destruct H as [H1 H2].
+      intros [= <-]. rewrite wfe_call. cbn [forallb]. lit_ok. rewrite Hsa. cbn [andb]. rewrite forallb_app, wfe_map_id, H1. cbn [andb].
+      kww. apply mw_opt_name. assumption.
+    - rewrite !andb_true_iff in H. destruct H as [[[[[[H1 H2] H3] H4] H5] H6] H7].
+      intros [= <-]. rewrite wfe_call. cbn [forallb app]. lit_ok. rewrite Hsa. cbn [andb].
+      rewrite !wfe_list, wfe_map_id, wfe_map_Sr, H1, H2. cbn [andb]. kww. apply mw_opt_name. assumption.
+    - rewrite !andb_true_iff in H. destruct H as [[H1 H2] H3].
+      intros [= <-]. rewrite wfe_call. cbn [forallb]. lit_ok. rewrite Hsa. cbn [andb]. rewrite forallb_app, wfe_map_id, H1. cbn [andb].
+      kww. apply mw_opt_name. assumption.
+    - apply andb_true_iff in H. destruct H as [H1 H2].
+      intros [= <-]. rewrite wfe_call. cbn [forallb app]. lit_ok. rewrite Hsa, wfe_Sr, H1. cbn [andb]. kww. apply mw_opt_name. assumption.
+  Qed.
+  Lemma wfe_somes l : forallb wf_tcons l = true -> forallb wfe (somes (map (render_constraint c) l)) = true.
+  Proof.
+    induction l as [|k r IH]; [reflexivity|]. cbn [forallb map somes]. intros H. apply andb_true_iff in H. destruct H as [H1 H2].
+    destruct (render_constraint c k) eqn:E; [|apply IH; exact H2]. cbn [somes forallb]. rewrite (wfe_constraint _ _ H1 E). apply IH. exact H2.
+  Qed.
+
+  Lemma wfe_create_table t : wf_table t = true -> wfe (render_create_table c t) = true.
+  Proof.
+    unfold wf_table. intros H. rewrite !andb_true_iff in H. destruct H as [[[[[H1 H2] H3] H4] H5] H6].
+    unfold render_create_table. rewrite wfe_call. cbn [forallb]. lit_ok. rewrite Hop. cbn [andb].
+    rewrite forallb_app. cbn [forallb]. rewrite wfe_id, H1, forallb_app, wfe_somes by assumption. cbn [andb].
+    assert (A: forallb wfe (map (render_column c) (t_cols t)) = true).
+    { rewrite forallb_map. rewrite forallb_forall in *. intros x Hx. apply wfe_column. apply H3; assumption. }
+    rewrite A. cbn [andb]. kww. destruct (t_prefixes t) as [|p ps]; [reflexivity|]. unfold mw. rewrite wfe_list, wfe_map_Sr. exact H6.
+  Qed.
+
+  Lemma wfe_map_ix l : forallb wf_ixexpr l = true -> forallb wfe (map (render_ixexpr c) l) = true.
+  Proof.
+    induction l as [|[i|s] r IH]; [reflexivity| |]; cbn [forallb map render_ixexpr wf_ixexpr]; intros H; apply andb_true_iff in H; destruct H as [H1 H2].
+    - rewrite wfe_id, H1, IH by assumption. reflexivity.
+    - rewrite wfe_call. cbn [forallb]. lit_ok. rewrite Hsa, wfe_Sr, H1, IH by assumption. reflexivity.
+  Qed.
+
+  Lemma wfe_tbl_op hb tn s o : wf_tbl_op tn s o = true -> wfe (render_tbl_op c hb tn s o) = true.
+  Proof.
+    unfold wf_tbl_op. intros H. rewrite !andb_true_iff in H. destruct H as [[Ht Hs] Ho].
+    assert (P: valid_ident (aprefix c hb) = true) by (unfold aprefix; destruct hb; [reflexivity|exact Hop]).
+    assert (T: forallb wfe (if hb then [] else [id_ tn]) = true) by (destruct hb; [reflexivity|cbn [forallb]; rewrite wfe_id, Ht; reflexivity]).
+    destruct o; cbn [render_tbl_op] in *; rewrite wfe_call; cbn [forallb]; lit_ok; rewrite P; cbn [andb]; rewrite ?forallb_app; cbn [forallb];
+      rewrite ?T; cbn [andb].
+    - rewrite (wfe_column _ Ho). cbn [andb]. kww.
+    - rewrite wfe_id, Ho. cbn [andb]. kww.
+    - unfold wf_alter in Ho. rewrite !andb_true_iff in Ho. destruct Ho as [[[[[[[A1 A2] A3] A4] A5] A6] A7] A8].
+      rewrite wfe_id, A1. cbn [andb]. kww.
+      + apply (mw_map _ wf_ty); [apply wfe_repr_type|exact A2].
+      + apply (mw_tri _ wf_sd); [apply wfe_sd|exact A3].
+      + apply (mw_map _ wf_ty); [apply wfe_repr_type|exact A5].
+      + apply (mw_tri _ valid_strb); [intros a0 Ha; rewrite wfe_Sr; exact Ha|exact A6].
+      + destruct (a_nullable a); mw_solve.
+      + destruct (a_server_default a); try mw_solve. apply (mw_map _ wf_sd); [apply wfe_sd|exact A8].
+    - apply andb_true_iff in Ho. destruct Ho as [A1 A2]. rewrite wfe_rname, wfe_list, wfe_map_ix by assumption. cbn [andb]. kww.
+    - rewrite wfe_rname by assumption. cbn [andb]. kww.
+    - rewrite !andb_true_iff in Ho. destruct Ho as [[A1 A2] A3]. rewrite wfe_rname, wfe_list, wfe_map_id, A2 by assumption. cbn [andb]. kww.
+    - unfold wf_fk in Ho. rewrite !andb_true_iff in Ho. destruct Ho as [[[[[[[[[A1 A2] A3] A4] A5] A6] A7] A8] A9] A10].
+      rewrite wfe_rname, wfe_id, A2, !wfe_list, !wfe_map_id, A3, A4 by assumption. cbn [andb]. kww.
+    - apply andb_true_iff in Ho. destruct Ho as [A1 A2]. rewrite wfe_rname by assumption. cbn [andb]. kww.
+    - apply andb_true_iff in Ho. destruct Ho as [A1 A2]. rewrite wfe_or_none_s by assumption. cbn [andb]. kww.
+    - kww.
+  Qed.
+
+  Theorem render_wf ops : forallb wf_top ops = true ->
+    forallb (fun st => forallb wfe (stmt_exprs st)) (render_ops c ops) = true.
+  Proof.
+    intros T. unfold render_ops. induction ops as [|o r IH]; [reflexivity|].
+    cbn [forallb] in T. apply andb_true_iff in T. destruct T as [To Tr].
+    cbn [flat_map]. rewrite forallb_app, (IH Tr), andb_true_r.
+    destruct o as [t|n s ie ty|tn s o|tn s l]; cbn [render_top wf_top] in *.
+    - cbn [forallb stmt_exprs]. rewrite wfe_create_table; auto.
+    - apply andb_true_iff in To. destruct To as [A1 A2].
+      cbn [forallb stmt_exprs]. unfold render_drop_table. rewrite wfe_call. cbn [forallb app]. lit_ok. rewrite Hop, wfe_id, A1. cbn [andb].
+      rewrite andb_true_r. kww.
+    - cbn [forallb stmt_exprs]. rewrite wfe_tbl_op; auto.
+    - rewrite !andb_true_iff in To. destruct To as [[A1 A2] A3].
+      destruct l as [|m l]; [reflexivity|]. destruct (cfg_batch c).
+      + cbn [forallb stmt_exprs]. rewrite andb_true_r. apply andb_true_iff. split.
+        * rewrite wfe_call. cbn [forallb app]. lit_ok. rewrite Hop, wfe_id, A1. cbn [andb]. kww.
+        * rewrite forallb_map. rewrite forallb_forall in *. intros x Hx. apply wfe_tbl_op. apply A3; assumption.
+      + rewrite forallb_map. rewrite forallb_forall in *. intros x Hx. cbn [stmt_exprs forallb]. rewrite wfe_tbl_op; auto.
+  Qed.
+End WF.
+
+(* ================================================================ part 7: text pasted between quotes does not survive a quote *)
+Definition fam (st:lstate) : Prop :=
+  match st with LStr q _ | LEsc q _ | LHex q _ _ _ | LOct q _ _ _ => q = c_sq | _ => False end.
+Definition is_err (st:lstate) : Prop := match st with LErr _ => True | _ => False end.
+Definition weight (st:lstate) : nat :=
+  match st with LStr _ a => length a | LEsc _ a | LHex _ a _ _ | LOct _ a _ _ => S (length a) | _ => 0%nat end.
+
+Ltac split_ifs := repeat match goal with
+  | |- context [if ?b then _ else _] => destruct b
+  | |- context [match ?x with _ => _ end] => destruct x
+  end.
+
+Lemma step_grows st out c : exists e, snd (lex_step (st, out) c) = e ++ out.
+Proof.
+  destruct st; cbn [lex_step]; unfold idle_step, str_step; split_ifs; cbn [snd];
+    first [exists []; reflexivity | eexists [_]; reflexivity | eexists [_; _]; reflexivity].
+Qed.
+Lemma run_grows : forall l st out, exists e, snd (lex_run (st, out) l) = e ++ out.
+Proof.
+  induction l as [|c l IH]; intros st out; [exists []; reflexivity|]. rewrite lex_run_cons.
+  destruct (lex_step (st, out) c) as [st1 out1] eqn:E. destruct (step_grows st out c) as [e1 H1]. rewrite E in H1. cbn [snd] in H1. subst out1.
+  destruct (IH st1 (e1 ++ out)) as [e2 H2]. exists (e2 ++ e1). rewrite H2, app_assoc. reflexivity.
+Qed.
+Lemma finish_first t l st toks : lex_finish (lex_run (st, [StrTok t]) l) = Ok toks -> exists rest, toks = StrTok t :: rest.
+Proof.
+  destruct (run_grows l st [StrTok t]) as [e H]. destruct (lex_run (st, [StrTok t]) l) as [st' out'] eqn:E. cbn [snd] in H. subst out'.
+  unfold lex_finish. destruct st'; intros [= <-]; cbn [rev]; rewrite ?rev_app_distr; cbn [rev app]; eexists; rewrite <- ?app_assoc; reflexivity.
+Qed.
+
+(* one character other than the quote keeps the scanner inside the literal (or kills it) and decodes at most one character *)
+Lemma step_fam st c : fam st -> c <> c_sq ->
+  let r := lex_step (st, []) c in snd r = [] /\ (is_err (fst r) \/ (fam (fst r) /\ (weight (fst r) <= S (weight st))%nat)).
+Proof.
+  intros F Hc. apply N.eqb_neq in Hc.
+  destruct st as [| | | |q a|q a|q a k v|q a k v|]; cbn [fam] in F; try contradiction; subst q; cbn [lex_step].
+  - unfold str_step. rewrite Hc. split_ifs; cbn; split; auto; right; split; auto.
+  - rewrite Hc. split_ifs; cbn; split; auto; right; split; auto.
+  - split_ifs; cbn; split; auto; right; split; auto.
+  - unfold str_step. rewrite Hc. split_ifs; cbn; split; auto; right; split; auto.
+Qed.
+
+(* the quote itself: it closes the literal, or is swallowed by an escape, or kills the scanner *)
+Lemma quote_fam st : fam st ->
+  let r := lex_step (st, []) c_sq in
+  (exists t, snd r = [StrTok t] /\ (length t <= weight st)%nat) \/
+  (snd r = [] /\ (is_err (fst r) \/ (fam (fst r) /\ (weight (fst r) <= weight st)%nat))).
+Proof.
+  intros F. destruct st as [| | | |q a|q a|q a k v|q a k v|]; cbn [fam] in F; try contradiction; subst q; cbn [lex_step].
+  - unfold str_step. rewrite N.eqb_refl. left. destruct a as [|x a]; cbn [snd]; eexists; split; try reflexivity; rewrite ?rev_length; auto.
+  - right. cbn. split; auto.
+  - right. cbn. split; auto.
+  - left. cbn. eexists. split; [reflexivity|]. rewrite app_length, rev_length. cbn. lia.
+Qed.
+
+Lemma err_run e out l : lex_finish (lex_run (LErr e, out) l) = Err e.
+Proof. rewrite lex_run_err. reflexivity. Qed.
+
+Lemma fam_bound : forall l st toks, fam st -> lex_finish (lex_run (st, []) l) = Ok toks ->
+  exists t rest, toks = StrTok t :: rest /\ (S (length t) <= weight st + length l)%nat.
+Proof.
+  induction l as [|c l IH]; intros st toks F H.
+  - destruct st; cbn in F; try contradiction; discriminate.
+  - rewrite lex_run_cons in H. destruct (N.eq_dec c c_sq) as [->|Hc].
+    + pose proof (quote_fam st F) as Q. destruct (lex_step (st, []) c_sq) as [st1 out1]. cbn [fst snd] in Q.
+      destruct Q as [[t [-> Ht]]|[-> [E|[F1 W1]]]].
+      * destruct (finish_first _ _ _ _ H) as [rest ->]. exists t, rest. split; [reflexivity|]. cbn [length]. lia.
+      * destruct st1; try contradiction. rewrite err_run in H. discriminate.
+      * destruct (IH st1 toks F1 H) as [t [rest [-> B]]]. exists t, rest. split; [reflexivity|]. cbn [length]. lia.
+    + pose proof (step_fam st c F Hc) as Q. destruct (lex_step (st, []) c) as [st1 out1]. cbn [fst snd] in Q.
+      destruct Q as [-> [E|[F1 W1]]].
+      * destruct st1; try contradiction. rewrite err_run in H. discriminate.
+      * destruct (IH st1 toks F1 H) as [t [rest [-> B]]]. exists t, rest. split; [reflexivity|]. cbn [length]. lia.
+Qed.
+
+Lemma fam_prefix : forall a st, fam st -> ~ In c_sq a ->
+  exists st', lex_run (st, []) a = (st', []) /\ (is_err st' \/ (fam st' /\ (weight st' <= weight st + length a)%nat)).
+Proof.
+  induction a as [|c a IH]; intros st F Hn.
+  - exists st. split; [reflexivity|]. right. split; [exact F|lia].
+  - rewrite lex_run_cons. assert (Hc: c <> c_sq) by (intros ->; apply Hn; left; reflexivity).
+    pose proof (step_fam st c F Hc) as Q. destruct (lex_step (st, []) c) as [st1 out1]. cbn [fst snd] in Q.
+    destruct Q as [-> [E|[F1 W1]]].
+    + destruct st1; try contradiction. exists (LErr e). rewrite lex_run_err. split; [reflexivity|left; exact I].
+    + destruct (IH st1 F1) as [st' [R [E|[F' W']]]]. { intros Hin. apply Hn. right. exact Hin. }
+      * exists st'. split; [exact R|left; exact E].
+      * exists st'. split; [exact R|]. right. split; [exact F'|]. cbn [length]. lia.
+Qed.
+
+Lemma first_occurrence (x:N) s : In x s -> exists a b, s = a ++ x :: b /\ ~ In x a.
+Proof.
+  induction s as [|c s IH]; [intros []|]. intros H. destruct (N.eq_dec c x) as [->|Hc].
+  - exists [], s. split; [reflexivity|intros []].
+  - destruct H as [E|H]; [contradiction|]. destruct (IH H) as [a [b [-> Hn]]]. exists (c :: a), b. split; [reflexivity|].
+    intros [E|Hin]; [contradiction|exact (Hn Hin)].
+Qed.
+
+Theorem raw_quote_breaks s : In c_sq s -> py_lex (raw_quote s) <> Ok [StrTok s].
+Proof.
+  intros Hin H. destruct (first_occurrence _ _ Hin) as [a [b [E Hn]]].
+  unfold py_lex, raw_quote in H. rewrite lex_run_cons in H.
+  change (lex_step (LIdle, []) c_sq) with (LStr c_sq [], @nil pytoken) in H.
+  rewrite E, <- app_assoc, lex_run_app in H.
+  destruct (fam_prefix a (LStr c_sq []) eq_refl Hn) as [sa [R [Er|[Fa Wa]]]]; rewrite R in H.
+  - destruct sa; try contradiction. rewrite err_run in H. discriminate.
+  - cbn [weight length] in Wa. cbn [app] in H. rewrite lex_run_cons in H.
+    pose proof (quote_fam sa Fa) as Q. destruct (lex_step (sa, []) c_sq) as [st1 out1]. cbn [fst snd] in Q.
+    assert (Ls: length s = (length a + S (length b))%nat) by (rewrite E, app_length; reflexivity).
+    destruct Q as [[t [-> Ht]]|[-> [Er|[F1 W1]]]].
+    + destruct (finish_first _ _ _ _ H) as [rest Hr]. injection Hr as Hr _. subst t. rewrite <- E in Ht. lia.
+    + destruct st1; try contradiction. rewrite err_run in H. discriminate.
+    + destruct (fam_bound _ _ _ F1 H) as [t [rest [Hr B]]]. injection Hr as Hr _. subst t. rewrite <- E in B. rewrite app_length in B. cbn [length] in B. lia.
+Qed.
